@@ -238,7 +238,7 @@ func (p *program) Explore(cfg Config) (*HarnessStats, error) {
 		cfg.MaxDepth = 400
 	}
 	if cfg.SolverTOms == 0 {
-		cfg.SolverTOms = 20000
+		cfg.SolverTOms = 60000
 	}
 	if cfg.MaxFindingsPerLabel == 0 {
 		cfg.MaxFindingsPerLabel = 2
